@@ -109,7 +109,8 @@ macro_rules! impl_bit_ops_for_int {
                 if position >= <$T>::BITS as usize {
                     return self < &0;
                 } else {
-                    self & (1 << position) > 0
+                    // (the mask of the sign bit is negative)
+                    self & (1 << position) != 0
                 }
             }
         }
